@@ -149,6 +149,7 @@ func buildBases(r *Run, rng *Rng, sizes []int) *baseStates {
 		env.mu.Lock()
 		env.insts = nil
 		env.mu.Unlock()
+		env.CheckAcks()
 		bs.envs[sz] = env
 	}
 	return bs
